@@ -914,6 +914,9 @@ func unop(fr *frame, instr *ssa.UnOp, x value) value {
 		if p == nil {
 			panic(runtimeError("invalid memory address or nil pointer dereference"))
 		}
+		if fr.i.traceWanted(fr) {
+			fr.i.traceCells(fr, p, false, instr.Pos())
+		}
 		return load(deref(instr.X.Type()), p)
 	case token.NOT:
 		return !x.(bool)
@@ -1000,7 +1003,30 @@ func callBuiltin(caller *frame, callpos token.Pos, fn *ssa.Builtin, args []value
 			return arg0
 		}
 		// append([]T, ...[]T) []T
-		return append(args[0].([]value), args[1].([]value)...)
+		a0, a1 := args[0].([]value), args[1].([]value)
+		if caller != nil && caller.i.traceWanted(caller) {
+			big := func(k, n int) bool { return n > 64 && k > 0 && k < n-1 }
+			for k := range a1 {
+				if !big(k, len(a1)) {
+					caller.i.traceCells(caller, &a1[k], false, callpos)
+				}
+			}
+			if len(a0)+len(a1) <= cap(a0) {
+				ext := a0[:len(a0)+len(a1)]
+				for k := len(a0); k < len(ext); k++ {
+					if !big(k-len(a0), len(a1)) {
+						caller.i.traceAccess(caller, &ext[k], true, false, callpos)
+					}
+				}
+			} else {
+				for k := range a0 {
+					if !big(k, len(a0)) {
+						caller.i.traceCells(caller, &a0[k], false, callpos)
+					}
+				}
+			}
+		}
+		return append(a0, a1...)
 
 	case "copy": // copy([]T, []T) int or copy([]byte, string) int
 		src := args[1]
@@ -1008,7 +1034,21 @@ func callBuiltin(caller *frame, callpos token.Pos, fn *ssa.Builtin, args []value
 			params := fn.Type().(*types.Signature).Params()
 			src = conv(caller, params.At(0).Type(), params.At(1).Type(), src)
 		}
-		return copy(args[0].([]value), src.([]value))
+		d, sv0 := args[0].([]value), src.([]value)
+		if caller != nil && caller.i.traceWanted(caller) {
+			n := len(d)
+			if len(sv0) < n {
+				n = len(sv0)
+			}
+			for k := 0; k < n; k++ {
+				if n > 64 && k > 0 && k < n-1 {
+					continue // large buffers: first and last cell stand for the range
+				}
+				caller.i.traceCells(caller, &sv0[k], false, callpos)
+				caller.i.traceAccess(caller, &d[k], true, false, callpos)
+			}
+		}
+		return copy(d, sv0)
 
 	case "close": // close(chan T)
 		caller.i.chanClose(caller, args[0].(*channel))
@@ -1017,6 +1057,9 @@ func callBuiltin(caller *frame, callpos token.Pos, fn *ssa.Builtin, args []value
 	case "delete": // delete(map[K]value, K)
 		switch m := args[0].(type) {
 		case *omap:
+			if caller.i.traceWanted(caller) {
+				caller.i.traceMap(caller, m, true, callpos)
+			}
 			m.delete(caller.i.concKey(caller, args[1]))
 		case *hashmap:
 			m.delete(args[1].(hashable))
